@@ -13,8 +13,8 @@ PROP = "C32"; LEVEL = "exploration"
 
 def gen(chk, mpmath, rng):
     mp = mpmath.mp
-    for i in range(chk.pick(70, 2500)):
-        p = rng.choice([53, 53, 80, 120])
+    for i in range(chk.pick(200, 4000)):
+        p = rng.choice([30, 53, 80, 120, 200])
         mp.prec = p
         n = rng.randint(1, 3)
         A = mp.matrix([[mp.mpf(rng.randint(-4, 4)) / rng.choice([1, 2, 4]) for _ in range(n)] for _ in range(n)])
@@ -25,7 +25,7 @@ def gen(chk, mpmath, rng):
         tol2 = lambda M: ex.mul(ex.pow2(2 * (10 - p)), ex.mx(ex.cmaxabs2(M), 1), (n * n) ** 2 * 16)
         try:
             if kind < 0.22:
-                B = mp.expm(mp.logm(A)); Ae = cmat(A)
+                B = mp.expm(mp.logm(A), method=rng.choice(["taylor", "pade"])); Ae = cmat(A)
                 yield ex.le(ex.cmaxabs2(ex.cmatsub(cmat(B), Ae)), tol2(Ae)), {"key": "expm(logm)", "A": str(A), "p": p, "what": "expm(logm(A)) != A"}
             elif kind < 0.42:
                 S = cmat(mp.sqrtm(A)); Ae = cmat(A)
@@ -45,7 +45,7 @@ def gen(chk, mpmath, rng):
             else:
                 d = [mp.mpf(rng.randint(-6, 6)) / 2 for _ in range(n)]
                 D = mp.diag(d)
-                E = mp.expm(D)
+                E = mp.expm(D, method=rng.choice(["taylor", "pade"]))
                 mp.prec = 2 * p + 30
                 ref = [mp.exp(v) for v in d]
                 mp.prec = p
